@@ -57,9 +57,12 @@ class AuditParser(dns.wirebase.Parser):
 
     def seek(self, where):
         if self.trail is not None:
-            self.trail.append((self.current - 2, where))
-            if len(self.trail) > len(self.wire) + 2:
+            # Decoding is a deterministic walk driven by the position: jumping to a target a
+            # second time means the walk cycles (and that target was not strictly earlier).
+            if any(t == where for _, t in self.trail) or len(self.trail) > len(self.wire) + 2:
+                self.trail.append((self.current - 2, where))
                 raise HopLimit()
+            self.trail.append((self.current - 2, where))
         super().seek(where)
 
 
@@ -525,7 +528,9 @@ def check_wire(msg, offset, expect=None):
                 what, type(e).__name__, ref.labels, ref.consumed)))
         return probs, kind
     except HopLimit:
-        probs.append(("C01/from_wire/nontermination", "%s followed more than %d pointers; reference: %s" % (what, len(msg) + 2, kind)))
+        trail = AuditParser.last.trail if AuditParser.last is not None else []
+        probs.append(("C01/from_wire/nontermination", "%s jumped to offset %d a second time (pointer trail %r): the decoder "
+                      "cycles; reference: %s" % (what, trail[-1][1] if trail else -1, trail[-4:], kind)))
         return probs, "hop-limit"
     except Exception as e:
         probs.append(("C01/from_wire/%s/ref=%s" % (crash_sig(e), kind), "%s: %s: %s" % (what, type(e).__name__, e)))
@@ -936,7 +941,7 @@ def run(ctx):
     alpha4 = ctx.pick(ALPHA4_Q, ALPHA4_T)
     parse_len = ctx.pick(6, 7)
     wire_len = ctx.pick(5, 6)
-    graphs = ctx.pick([(5, (0, 0xFC, 0x3FF4))], [(6, (0, 0xFC, 0x3FF4)), (7, (0,))])
+    graphs = ctx.pick([(5, (0, 0xFC, 0x3FF4))], [(6, (0, 0xFC, 0x3FF4))])
     cbases = [0, 12, 0x3FFC, 0x3FFD, 0x3FFE, 0x3FFF, 0x4000, 0x4001]
     tasks = []
     # (a) text
